@@ -70,6 +70,24 @@ MUTANTS = {
         ("infer/calculators.py", "        return s_plus_b, b_only\n\n    def pvalues(self, teststat, sig_plus_bkg_distribution", "        return b_only, s_plus_b\n\n    def pvalues(self, teststat, sig_plus_bkg_distribution")]),
     "C14-normal-sample-ignores-scale": dict(prop="C14", expect="violation", edits=[
         ("tensor/numpy_backend.py", "return norm(self.loc, self.scale).rvs(size=sample_shape + self.loc.shape)", "return norm(self.loc, 1.0).rvs(size=sample_shape + self.loc.shape)")]),
+    "C14-bkg-toy-generation-ignores-callers-fixed-and-bounds": dict(prop="C14", expect="violation", edits=[
+        ("infer/calculators.py", """            1.0 if self.test_stat == 'q0' else 0.0,
+            self.data,
+            self.pdf,
+            self.init_pars,
+            self.par_bounds,
+            self.fixed_params,
+        )
+        bkg_pdf""", """            1.0 if self.test_stat == 'q0' else 0.0,
+            self.data,
+            self.pdf,
+            self.init_pars,
+            self.pdf.config.suggested_bounds(),
+            self.pdf.config.suggested_fixed(),
+        )
+        bkg_pdf""")]),
+    "C17-apply-result-shares-patch-values": dict(prop="C17", expect="violation", edits=[
+        ("patchset.py", "        return jsonpatch.JsonPatch(copy.deepcopy(self.patch)).apply(", "        return jsonpatch.JsonPatch(self.patch).apply(")]),
     # ---------------- C17 ----------------------------------------------------
     "C17-verify-first-algorithm-only": dict(prop="C17", expect="violation", edits=[
         ("patchset.py", """                    f"The digest verification failed for hash algorithm '{hash_alg}'. Expected: {digest}. Got: {digest_calc}"
